@@ -62,7 +62,8 @@ theorem Gmx2.withdraw_ok {cx : NumCtx} {cfg : Config Rat} {ps : Pool Rat} {lk sk
       split at h
       · cases h
       · rename_i r' hr
-        simp only [Prod.mk.injEq, Except.ok.injEq] at h
+        rw [show (!((ratOps pw).isFinite r'.longAmount && (ratOps pw).isFinite r'.shortAmount)) = false from rfl] at h
+        simp only [Bool.false_eq_true, if_false, Prod.mk.injEq, Except.ok.injEq] at h
         obtain ⟨rfl, rfl⟩ := h
         exact ⟨not_lt.mp h1, not_lt.mp h2, hr, rfl, rfl, rfl⟩
 
